@@ -200,11 +200,22 @@ def gen_putfile(out):
           and [U(s) for s in b[0].orelse] == ["self.d.callback(None)"])
     ge = [U(s) for s in strip_doc(P.find_def(mod, "FileUploaderReader._got_error").body)]
     rb = [U(s) for s in strip_doc(P.find_def(mod, "FileUploaderReader.read_block").body)]
-    if not ok or ge != ["self.d.errback(f)"] or rb != ["d = self.source.callRemote('read', self.BLOCKSIZE)",
-                                                      "d.addCallback(self._got_data)", "d.addErrback(self._got_error)"]:
+    call = "d = self.source.callRemote('read', self.BLOCKSIZE)"
+    # d.addCallback(_got_data); d.addErrback(_got_error): the errback ALSO sees an exception raised by _got_data itself
+    # (f.write failing).  d.addCallbacks(_got_data, _got_error) / errback added first: it only sees a failed callRemote.
+    if rb == [call, "d.addCallback(self._got_data)", "d.addErrback(self._got_error)"]:
+        covered = True
+    elif rb in ([call, "d.addCallbacks(self._got_data, self._got_error)"],
+                [call, "d.addErrback(self._got_error)", "d.addCallback(self._got_data)"]):
+        covered = False
+    else:
+        covered = None
+    if not ok or ge != ["self.d.errback(f)"] or covered is None:
         raise P.Untranslatable("FileUploaderReader changed shape: %s / %s / %s" % ([U(s) for s in b], ge, rb))
     out.append("Definition reader_shape_ok : bool := true.  (* write(data) per non-empty block; callback on empty; "
                "errback on source error *)")
+    out.append("Definition reader_write_error_handled : bool := %s.  (* an exception raised while writing a block reaches "
+               "_got_error, hence remote_putfile's _err *)" % ("true" if covered else "false"))
 
 
 def gen_registry(out):
@@ -262,6 +273,8 @@ def gen_gatherer(out):
     ext = None
     built = False
     guard_at = None
+    rawvars = {}
+    source = "FromValidated"
     for i, (st, t) in enumerate(zip(body, texts)):
         m = re.fullmatch(r"(\w+) = self\.basedir\.child\(name\)", t)
         if m:
@@ -288,6 +301,25 @@ def gen_gatherer(out):
                 and st.body and isinstance(st.body[-1], ast.Raise) and not st.orelse:
             guard_at = i
             continue
+        # the file is named from the RAW name instead of the validated, normalised child:
+        #   savename = name + '.flog.bz2' ; abs_fn = os.path.join(self.basedir.path, savename)
+        m = re.fullmatch(r"(\w+) = name \+ ('[^'/]+')", t)
+        if m and m.group(1) != "abs_fn":
+            rawvars[m.group(1)] = ast.literal_eval(m.group(2))
+            continue
+        m = re.fullmatch(r"abs_fn = os\.path\.join\(self\.basedir\.path, (.+)\)", t)
+        if m:
+            a = m.group(1)
+            m2 = re.fullmatch(r"name \+ ('[^'/]+')", a)
+            if a in rawvars:
+                ext = rawvars[a]
+            elif m2:
+                ext = ast.literal_eval(m2.group(1))
+            else:
+                raise P.Untranslatable("_got_incident: abs_fn joined from an unrecognised expression: " + t)
+            built = True
+            source = "FromRawName"
+            continue
         if re.search(r"\babs_fn\s*(\+?=)", t):
             raise P.Untranslatable("_got_incident: abs_fn assigned in an unrecognised way: " + t)
     if not built or ext is None or "self.save_incident(abs_fn, incident)" not in texts:
@@ -295,7 +327,7 @@ def gen_gatherer(out):
     i_save = texts.index("self.save_incident(abs_fn, incident)")
     guard = "GuardParentEq" if (guard_at is not None and guard_at < i_save) else "NoGuard"
     for t in texts:
-        if re.search(r"\bopen\(|os\.path\.join\(self\.basedir|os\.(rename|unlink|remove)", t):
+        if re.search(r"\bopen\(|os\.path\.join\(self\.basedir(?!\.path, )|os\.(rename|unlink|remove)", t):
             raise P.Untranslatable("_got_incident: unrecognised file statement: " + t)
     si = [U(s) for s in strip_doc(P.find_def(mod, "IncidentObserver.save_incident").body)]
     if "f = bz2.BZ2File(filename, 'w')" not in si:
@@ -305,6 +337,8 @@ def gen_gatherer(out):
         raise P.Untranslatable("update_latest changed: %s" % ul)
     out.append("(* logging/gatherer.py IncidentObserver._got_incident *)")
     out.append("Definition gatherer_guard : guardk := %s." % guard)
+    out.append("Definition gatherer_path_source : pathsrc := %s.  (* is the written file derived from the validated child "
+               "or from the raw name *)" % source)
     out.append("Definition gatherer_ext : list N := %s.  (* %r *)" % (blist(ext), ext))
     out.append("Definition gatherer_latest : list N := %s." % blist("latest"))
 
